@@ -158,7 +158,7 @@ C["C13"] = dict(level="other",
  stubs=["zzMsgs (auto-answering server)", "Dial stub", "clock"],
  bounds={"operations": "quick 3, thorough 4", "limits (MaxConns,MaxIdle)": "(1,1),(2,1),(2,2) + (0,0),(1,3) in thorough", "addresses": "2", "ticks": "1 (thorough 2)"},
  outside=["concurrent callers (sequential histories only)", "longer histories"],
- runs={"quick": [run("TR", labels=TR_C13), run("TRlim", params={"trlim.limits": 2}, labels=TR_C13), run("TRcc", labels=TR_C13)], "thorough": [run("TR", params={"tr.S": 4, "tr.limits": 5, "tr.ticks": 2}, labels=TR_C13, budget=2400), run("TRlim", labels=TR_C13, budget=1500), run("TRcc", labels=TR_C13), run("TRcc", P=1, gran=1, labels=TR_C13, budget=1500)]})
+ runs={"quick": [run("TR", labels=TR_C13), run("TRlim", params={"trlim.limits": 3}, labels=TR_C13), run("TRcc", labels=TR_C13)], "thorough": [run("TR", params={"tr.S": 4, "tr.limits": 5, "tr.ticks": 2}, labels=TR_C13, budget=2400), run("TRlim", params={"trlim.limits": 8}, labels=TR_C13, budget=1500), run("TRcc", labels=TR_C13), run("TRcc", P=1, gran=1, labels=TR_C13, budget=1500)]})
 
 C["C14"] = dict(level="other",
  explanation="Same Transport histories as C13 asserting routing (a call to A writes only on connections dialed to A) and failure kinds, plus the directed recovery harness TRrec: one pooled connection, server killed and restarted, then a sequential caller with ticks allowed between calls and symbolic clock readings: at most one failure per pooled connection, then success, and it stays recovered.",
